@@ -639,6 +639,33 @@ def upManifestStep (w : World) (path : Str) (hashes : Option (List Str)) (acc : 
       | .error e => .error e
       | .ok st' => .ok { a with st := st'.markUpdated kdv.1 }
 
+/-- the path of the new entry relative to its Manifest (`AUX`: it must lie below `files/`, and is given as the aux_path) -/
+def newEntryPath (newType : FTag) (path rel : Str) : Except Err Str :=
+  match relpath? path rel with
+  | none => .error .abstain
+  | some np =>
+    if newType == .AUX then
+      if !pathInsideDir np [102, 105, 108, 101, 115] then .error (.internal .assertion)
+      else
+        match relpath? np [102, 105, 108, 101, 115] with
+        | none => .error .abstain
+        | some q => .ok q
+    else .ok np
+
+/-- `e = new_manifest_entry(new_entry_type, newpath, 0, {}); update_entry_for_path(...); m.entries.append(e)` -/
+def upAddEntry (w : World) (st : St) (path : Str) (newType : FTag) (hs : List Str) (mp rel : Str) : Except Err St :=
+  if newType == .DIST then .error (.internal .assertion)
+  else
+    match newEntryPath newType path rel with
+    | .error e => .error e
+    | .ok np =>
+      match objAt w path with
+      | .error e => .error e
+      | .ok ob =>
+        match refreshEntry ob path (.file newType np 0 []) (some hs) st.dev? none with
+        | .error e => .error e
+        | .ok (fe', _) => .ok ((st.append mp fe').markUpdated mp)
+
 /-- `ManifestRecursiveLoader.update_entry_for_path(path, new_entry_type, hashes)`: refresh the entry of one path
     (the most specific one), drop its other entries - all of them when the file is gone -, or add an entry of the
     given type to the most specific Manifest when the path has none -/
@@ -656,27 +683,6 @@ def updateEntryForPath (w : World) (s : St) (path : Str) (newType : FTag) (hashe
         | some hs =>
           match iterManifests a.st.plain path false with
           | [] => .ok a.st
-          | kdv :: _ =>
-            if newType == .DIST then .error (.internal .assertion)
-            else
-              match relpath? path kdv.2.1 with
-              | none => .error .abstain
-              | some np =>
-                let np? : Except Err Str :=
-                  if newType == .AUX then
-                    (if !pathInsideDir np [102, 105, 108, 101, 115] then .error (.internal .assertion)
-                     else match relpath? np [102, 105, 108, 101, 115] with
-                       | none => .error .abstain
-                       | some q => .ok q)
-                  else .ok np
-                match np? with
-                | .error e => .error e
-                | .ok np' =>
-                  match objAt w path with
-                  | .error e => .error e
-                  | .ok ob =>
-                    match refreshEntry ob path (.file newType np' 0 []) (some hs) a.st.dev? none with
-                    | .error e => .error e
-                    | .ok (fe', _) => .ok ((a.st.append kdv.1 fe').markUpdated kdv.1)
+          | kdv :: _ => upAddEntry w a.st path newType hs kdv.1 kdv.2.1
 
 end Gemato.U
